@@ -172,7 +172,7 @@ Proof. vm_compute. repeat split; reflexivity. Qed.
 
 From Coq Require Import ZArith.
 From Sge Require Model.Reward.
-From Sge Require Import Gen.kernels Proofs.GenKernels.
+From Sge Require Import Gen.kernels Proofs.GenReward.
 Open Scope Z_scope.
 (* the pool arithmetic of the reward machine IS the Go code: Pool.AvailableAmount / CheckBalance / Spend / TopUp / Withdraw are generated
    from x/reward/types/pool.go on every run and proved equal to the model's expressions *)
